@@ -252,8 +252,11 @@ struct Map {
     m: [Member; 4],
     len: usize,
     pos: usize,
+    /// deliver member names as bytes (visit_borrowed_bytes) instead of str
+    bytes: bool,
 }
-const NAMES: [&str; 8] = ["iss", "sub", "aud", "exp", "nbf", "iat", "jti", "zzz"];
+/// 0..=6 registered; 7.. unknown names, two of them sharing a prefix with / being a prefix of a registered one
+const NAMES: [&str; 10] = ["iss", "sub", "aud", "exp", "nbf", "iat", "jti", "zzz", "issuer", "ex"];
 struct ValDe(Member);
 impl<'de> Deserializer<'de> for ValDe {
     type Error = E;
@@ -289,7 +292,11 @@ impl<'de> MapAccess<'de> for Map {
             return Ok(None);
         }
         let name: &'static str = NAMES[self.m[self.pos].key as usize];
-        seed.deserialize(de::value::BorrowedStrDeserializer::<E>::new(name)).map(Some)
+        if self.bytes {
+            seed.deserialize(de::value::BorrowedBytesDeserializer::<E>::new(name.as_bytes())).map(Some)
+        } else {
+            seed.deserialize(de::value::BorrowedStrDeserializer::<E>::new(name)).map(Some)
+        }
     }
     fn next_value_seed<S: DeserializeSeed<'de>>(&mut self, seed: S) -> Result<S::Value, E> {
         let m = self.m[self.pos];
@@ -315,7 +322,7 @@ impl<'de> Deserializer<'de> for TopDe {
 /// The member NAMES are concrete per harness (const parameters K0..K2): a symbolic name would reach
 /// serde's field matcher as a `&str` of symbolic length, which CBMC cannot bound (both 1- and 2-member
 /// harnesses with symbolic names ran past 1500 s).  null-ness and the value character stay symbolic.
-fn map_semantics<const N: usize, const K0: u8, const K1: u8, const K2: u8>() {
+fn map_semantics<const N: usize, const K0: u8, const K1: u8, const K2: u8, const BYTES: bool>() {
     let keys = [K0, K1, K2, 7];
     let mut m = [Member { key: 7, null: true, ch: 0 }; 4];
     let mut i = 0;
@@ -326,14 +333,14 @@ fn map_semantics<const N: usize, const K0: u8, const K1: u8, const K2: u8>() {
         m[i] = Member { key, null, ch };
         i += 1;
     }
-    let r = <RegisteredClaims as de::Deserialize>::deserialize(TopDe(Map { m, len: N, pos: 0 }));
+    let r = <RegisteredClaims as de::Deserialize>::deserialize(TopDe(Map { m, len: N, pos: 0, bytes: BYTES }));
     // reference
     let mut cur: [Option<u8>; 8] = [None; 8];
     let mut dup = false;
     let mut i = 0;
     while i < N {
         let k = m[i].key as usize;
-        if k != 7 && !dup {
+        if k < 7 && !dup {
             if cur[k].is_some() {
                 dup = true;
             } else if !m[i].null {
@@ -365,8 +372,23 @@ macro_rules! map_h {
     ($($name:ident: $n:expr, $k0:expr, $k1:expr, $k2:expr;)*) => {$(
         #[kani::proof]
         #[kani::unwind(10)]
-        fn $name() { map_semantics::<{ $n }, { $k0 }, { $k1 }, { $k2 }>(); }
+        fn $name() { map_semantics::<{ $n }, { $k0 }, { $k1 }, { $k2 }, false>(); }
     )*};
+}
+macro_rules! map_bytes_h {
+    ($($name:ident: $n:expr, $k0:expr, $k1:expr, $k2:expr;)*) => {$(
+        #[kani::proof]
+        #[kani::unwind(10)]
+        fn $name() { map_semantics::<{ $n }, { $k0 }, { $k1 }, { $k2 }, true>(); }
+    )*};
+}
+map_bytes_h! {
+    // member names delivered as bytes (formats may call visit_bytes / visit_borrowed_bytes)
+    deserialize_map_bytes_iss: 1, 0, 7, 7;
+    deserialize_map_bytes_issuer: 1, 8, 7, 7;
+    deserialize_map_bytes_iss_issuer: 2, 0, 8, 7;
+    deserialize_map_bytes_ex: 1, 9, 7, 7;
+    deserialize_map_bytes_jti_jti: 2, 6, 6, 7;
 }
 map_h! {
     deserialize_map_n0: 0, 7, 7, 7;
@@ -391,4 +413,8 @@ map_h! {
     // three members
     deserialize_map_iss_unknown_iss: 3, 0, 7, 0;
     deserialize_map_sub_aud_jti: 3, 1, 2, 6;
+    // unknown names that extend / are a prefix of a registered name
+    deserialize_map_issuer: 1, 8, 7, 7;
+    deserialize_map_iss_issuer: 2, 0, 8, 7;
+    deserialize_map_ex: 1, 9, 7, 7;
 }
